@@ -10,8 +10,12 @@ ENC_ASSUME = ['sampled configurations/contents/schedules, not all', 'reference d
 
 def mk(ck, cfgo, cont, n, wh=(64, 64), g=None, sim=None, machine=None, oracles=None, mem=None, extra=None):
     cfg = dict(BASE_CFG); cfg.update(cfgo); cfg['source_width'], cfg['source_height'] = wh
+    twopass = cfg.pop('_twopass', 0)
     gg = {'n': n}; gg.update(g or {})
-    return gen.enc_case(cfg, cont, gg, sim=sim, machine=machine or {'cores': max(2, min(cfg.get('logical_processors', 4), 64)), 'sockets': 1}, oracles=oracles, mem=mem, extra=extra)
+    c = gen.enc_case(cfg, cont, gg, sim=sim, machine=machine or {'cores': max(2, min(cfg.get('logical_processors', 4), 64)), 'sockets': 1}, oracles=oracles, mem=mem, extra=extra)
+    if twopass:   # a first-pass session (statistics out) followed by the second-pass session (statistics in) in one application
+        c['program'] = gen.two_pass_program(n, recon=bool(cfg.get('recon_enabled'))); c['_gen'] = None; c['_twopass'] = 1
+    return c
 
 def run_families(ck, prop, evalname, fams, variant, adopt=('TERM',)):
     flat = [c for fam in fams for c in fam]
@@ -49,6 +53,9 @@ C01_CORPUS = [
     ({'screen_content_mode': 1, 'enc_mode': 6, 'palette_level': 6, 'intrabc_mode': 1}, {'kind': 'text', 'seed': 10}, 5, (128, 64)),
     ({'enable_restoration_filtering': 1, 'cdef_level': 1, 'enc_mode': 4}, {'kind': 'hgrad', 'seed': 11}, 4, (128, 128)),
     ({'intra_period_length': 3, 'intra_refresh_type': 2}, {'kind': 'mix', 'seed': 12}, 11, (64, 64)),
+    # two-pass encodes (first-pass statistics fed back through rc_twopass_stats_in), constant quality and VBR
+    ({'_twopass': 1, 'hierarchical_levels': 3, 'intra_period_length': 15}, {'kind': 'moving', 'seed': 18}, 14, (64, 64)),
+    ({'_twopass': 1, 'rate_control_mode': 1, 'target_bit_rate': 200000, 'hierarchical_levels': 4, 'intra_period_length': 15}, {'kind': 'rails', 'seed': 19}, 20, (72, 66)),
     # tool interactions across tile boundaries: per-tile state (restoration references, CDF contexts, palette/intrabc caches) with
     # several tile rows *and* columns while the in-loop filters are really in use
     ({'tile_rows': 1, 'tile_columns': 0, 'enable_restoration_filtering': 1, 'cdef_level': 1, 'enc_mode': 6}, {'kind': 'noise', 'seed': 13}, 5, (192, 256)),
@@ -60,7 +67,10 @@ C01_CORPUS = [
 def swarm_cases(ck, tier, nq, nt, oracles, corpus, fields_quick=gen.SAFE, kinds=None, nrange=(1, 12), force=None, sizes_small=True, vary=None):
     rng = ck.rng; cases = []
     for (cfgo, cont, n, wh) in corpus:
-        cases.append(mk(ck, dict(cfgo, **(force or {})), cont, n, wh, oracles=oracles, sim=gen.schedule(rng, allow_buggify=False)))
+        cfgo = dict(cfgo); long_ = cfgo.pop('_long', 0)
+        c = mk(ck, dict(cfgo, **(force or {})), cont, n, wh, oracles=dict(oracles, decode=0, recon_compare=0) if long_ else oracles, sim=gen.schedule(rng, allow_buggify=False) if not long_ else {'policy': 'np', 'seed': 1})
+        if long_: c['wall_timeout'] = 3000; c['sim']['step_limit'] = 400000000
+        cases.append(c)
     for i in range(nq if tier == 'quick' else nt):
         cfgo = gen.swarm_cfg(rng, fields=fields_quick if tier == 'quick' else None, nmax=5 if tier == 'quick' else 7)
         if force: cfgo.update(force)
@@ -110,17 +120,19 @@ def single_check(prop, tier, seed, oracles, corpus, nq, nt, rule, variant='plain
 
 @check('C01')
 def check_c01(tier, seed):
-    return single_check('C01', tier, seed, {'decode': 1, 'parse': 1, 'recon_compare': 1, 'aom': 1, 'order': 0}, C01_CORPUS, 40, 300,
+    return single_check('C01', tier, seed, {'decode': 1, 'parse': 1, 'recon_compare': 1, 'aom': 1, 'order': 0}, C01_CORPUS, 110, 300,
         'whole-encoder simulated runs (seeded schedule, machine, heap poison) over a configuration swarm x content recipes x sizes x lengths; oracle: dav1d decodes every packet to exactly one picture equal sample-for-sample to the recon with that pts, libaom must agree with dav1d; non-trivial = completed run with >=1 packet decoded; distinct = distinct cases')
 
 C02_CORPUS = C01_CORPUS + [
+    # longer than the 2048-slot packetization reorder queue: every slot (and the small per-slot bitstream that holds a show-existing header) is used a second time
+    ({'hierarchical_levels': 4, 'enc_mode': 8, 'logical_processors': 2, 'recon_enabled': 0, '_long': 1}, {'kind': 'mix', 'seed': 24}, 2120, (64, 64)),
     ({'hierarchical_levels': 5, 'enc_mode': 7}, {'kind': 'mix', 'seed': 21}, 40, (64, 64)),
     ({'hierarchical_levels': 3, 'pred_structure': 0, 'enc_mode': 7}, {'kind': 'mix', 'seed': 22}, 12, (64, 64)),
     ({'intra_period_length': 7, 'intra_refresh_type': 1, 'hierarchical_levels': 3}, {'kind': 'mix', 'seed': 23}, 20, (64, 64)),
 ]
 @check('C02')
 def check_c02(tier, seed):
-    return single_check('C02', tier, seed, {'decode': 0, 'parse': 1, 'order': 0}, C02_CORPUS, 50, 400,
+    return single_check('C02', tier, seed, {'decode': 0, 'parse': 1, 'order': 0}, C02_CORPUS, 120, 400,
         'same simulated runs as C01; oracle: independent OBU parser on every packet (temporal delimiter first, OBU sizes tile the packet, exactly one displayed frame and nothing after it, sequence header before first frame and at every key frame, byte-identical copies and equal to the stream-header API, pic_type consistent with the carried frame: KEY <=> shown key frame, NON_REF never referenced later); distinct = distinct cases', nrange=(1, 24))
 
 # ---- C03 ---------------------------------------------------------------------------------------------------
@@ -140,7 +152,7 @@ def check_c03(tier, seed):
     nmax = 34 if tier == 'quick' else 70
     cases = []
     for n in range(0, nmax + 1):
-        reps = 1 if tier == 'quick' else 3
+        reps = 2 if tier == 'quick' else 3
         for _ in range(reps):
             g = dict(rng.choice(gops)); g['enc_mode'] = g.get('enc_mode', 8); g['logical_processors'] = rng.choice([1, 2, 4])
             style = rng.random(); pts = None
@@ -171,13 +183,14 @@ def check_c05(tier, seed):
     bases = [({'enc_mode': 8}, {'kind': 'mix', 'seed': 3}, 8, (192, 192)), ({'enc_mode': 6, 'tile_columns': 1}, {'kind': 'moving', 'seed': 5}, 6, (256, 192)),
              ({'enc_mode': 7, 'encoder_bit_depth': 10}, {'kind': 'mix', 'seed': 7}, 5, (192, 128)),
              # every preset has its own tool set (per-thread caches, rate-estimation updates, pool-dependent paths): cover the slower ones too
-             ({'enc_mode': 5}, {'kind': 'moving', 'seed': 9}, 6, (192, 128)), ({'enc_mode': 4}, {'kind': 'moving', 'seed': 11}, 5, (128, 128))]
+             ({'enc_mode': 5}, {'kind': 'moving', 'seed': 9}, 6, (192, 128)), ({'enc_mode': 4}, {'kind': 'moving', 'seed': 11}, 5, (128, 128)),
+             ({'enc_mode': 5}, {'kind': 'mix', 'seed': 194937}, 8, (256, 192)), ({'enc_mode': 6}, {'kind': 'grainy', 'seed': 13}, 7, (256, 192))]   # the first of these is the family that exposes seeded/C05
     if tier != 'quick':
         bases += [({'enc_mode': m}, {'kind': 'moving', 'seed': 20 + m}, 5, (192, 128)) for m in (0, 1, 2, 3)]
-    nexp = 2 if tier == 'quick' else 24
+    nexp = 5 if tier == 'quick' else 24
     for i in range(nexp):
         bases.append((gen.swarm_cfg(rng, fields=[f for f in gen.SAFE if f != 'logical_processors'], nmax=3), gen.content(rng, kinds=['mix', 'moving', 'noise']), rng.randint(3, 8), (rng.choice([192, 256, 320]), rng.choice([192, 256]))))
-    K = 7 if tier == 'quick' else 16
+    K = 8 if tier == 'quick' else 16
     fams = []
     for (cfgo, cont, n, wh) in bases:
         cfgo = dict(cfgo); cfgo['logical_processors'] = 1
@@ -258,7 +271,7 @@ def check_c13(tier, seed):
              ({'logical_processors': 1, 'use_fixed_qindex_offsets': 1, 'qindex_offsets': [0, 8, 16, 24, 32, 40], 'key_frame_qindex_offset': -8, 'hierarchical_levels': 3}, {'kind': 'moving', 'seed': 5}, 6, (64, 64)),
              ({'logical_processors': 1, 'rate_control_mode': 2, 'target_bit_rate': 300000}, {'kind': 'moving', 'seed': 7}, 6, (64, 64)),
              ({'logical_processors': 1, 'screen_content_mode': 1, 'enc_mode': 6}, {'kind': 'text', 'seed': 9}, 3, (128, 64))]
-    for i in range(1 if tier == 'quick' else 12):
+    for i in range(4 if tier == 'quick' else 12):
         cfgo = gen.swarm_cfg(rng, fields=gen.SAFE, nmax=3); cfgo['logical_processors'] = rng.choice([1, 2])
         bases.append((cfgo, gen.content(rng, kinds=['mix', 'moving']), rng.randint(2, 6), gen.size(rng)))
     fams = []
@@ -299,7 +312,7 @@ def check_c21(tier, seed):
     ck.ev.components = core.COMPONENTS_ENC; ck.ev.assumptions = list(ENC_ASSUME)
     variant = 'asan'; core.build(variant); rng = ck.rng
     bases = [({'logical_processors': 2}, {'kind': 'mix', 'seed': 3}, 5, (64, 64)), ({'logical_processors': 1, 'encoder_bit_depth': 10}, {'kind': 'moving', 'seed': 5}, 3, (72, 66))]
-    for i in range(1 if tier == 'quick' else 10):
+    for i in range(4 if tier == 'quick' else 10):
         cfgo = gen.swarm_cfg(rng, fields=['enc_mode', 'hierarchical_levels', 'tf_level', 'encoder_bit_depth', 'look_ahead_distance'], nmax=2); cfgo['logical_processors'] = rng.choice([1, 2, 4])
         bases.append((cfgo, gen.content(rng, kinds=['mix', 'moving', 'noise']), rng.randint(2, 6), gen.size(rng)))
     fams = []
@@ -335,7 +348,7 @@ def check_c27(tier, seed):
              ({'logical_processors': 8, 'hierarchical_levels': 2, 'enc_mode': 4, 'recon_enabled': 0, '_wide': 1}, {'kind': 'pan', 'seed': 7}, 40, (64, 64)),
              ({'logical_processors': 16, 'hierarchical_levels': 1, 'enc_mode': 4, 'recon_enabled': 0, '_wide': 1}, {'kind': 'pan', 'seed': 7}, 40, (64, 64)),
              ({'logical_processors': 4, 'hierarchical_levels': 0, 'enc_mode': 5, 'recon_enabled': 0}, {'kind': 'moving', 'seed': 11}, 18, (64, 64))]
-    for i in range(5 if tier == 'quick' else 20):
+    for i in range(8 if tier == 'quick' else 20):
         cfgo = gen.swarm_cfg(rng, fields=['enc_mode', 'hierarchical_levels', 'look_ahead_distance', 'enable_tpl_la', 'pred_structure', 'intra_period_length'], nmax=3); cfgo['logical_processors'] = rng.choice([1, 2, 4])
         bases.append((cfgo, gen.content(rng, kinds=['mix', 'moving']), rng.randint(4, 30), (64, 64)))
     fams = []
@@ -414,13 +427,15 @@ C11_CORPUS = [
     ({'film_grain_denoise_strength': 50, 'logical_processors': 1}, {'kind': 'grainy', 'seed': 10}, 3, (128, 128)),
     ({'superres_mode': 1, 'superres_denom': 12, 'superres_kf_denom': 12, 'logical_processors': 1, 'enc_mode': 6}, {'kind': 'moving', 'seed': 11}, 3, (128, 128)),
 ]
+C11_CORPUS += [({'_twopass': 1, 'rate_control_mode': 1, 'target_bit_rate': 100000, 'intra_period_length': 15, 'logical_processors': 2, 'recon_enabled': 0}, {'kind': 'rails', 'seed': 31}, 18, (64, 64)),
+               ({'_twopass': 1, 'qp': 55, 'hierarchical_levels': 3, 'logical_processors': 1, 'recon_enabled': 0}, {'kind': 'noise', 'seed': 32}, 10, (66, 70))]
 # rate-control routes: every (mode, intra period incl. "never", look-ahead, TPL) combination selects other branches of the rate-control kernel
 C11_CORPUS += [({'rate_control_mode': rc, 'target_bit_rate': tbr, 'intra_period_length': ip, 'look_ahead_distance': lad, 'enable_tpl_la': tpl, 'logical_processors': 2, 'recon_enabled': 0},
                 {'kind': kind, 'seed': 20 + rc * 7 + ip}, 12, (64, 64))
                for rc in (1, 2) for (ip, kind, tbr) in ((-1, 'moving', 100000), (7, 'rails', 300000), (31, 'mix', 50000)) for (lad, tpl) in ((0, 1), (17, 1), (17, 0), (0, 0))]
 @check('C11')
 def check_c11(tier, seed):
-    return single_check('C11', tier, seed, {'decode': 0, 'parse': 1, 'order': 0, 'api_errors': 1}, C11_CORPUS, 14, 300,
+    return single_check('C11', tier, seed, {'decode': 0, 'parse': 1, 'order': 0, 'api_errors': 1}, C11_CORPUS, 36, 300,
         'whole-encoder runs on the ASan + arithmetic-UBSan build with traps armed (exit/abort/assert/signals), corner configurations (qp 0/63, min==max qp, incompressible noise, odd sizes, tiles, superres, film grain, screen content, 10-bit) plus a configuration swarm; '
         'oracle: no sanitizer report, no trapped exit/abort, no error packet, no API error, termination decided by the scheduler; distinct = distinct cases', variant='asan', adopt=('TERM', 'CRASH'), nrange=(1, 6))
 
@@ -430,20 +445,23 @@ def check_c18(tier, seed):
     ck = Check('C18', tier, seed)
     ck.ev.rule = ('rate_control_mode 0/1/2 x enable_qp_scaling_flag x (min,max) qp pairs incl. min==max x fixed qindex offsets x content driving RC to the rails (noise/flat/noise); oracle on the independently parsed base_q_idx of every coded frame: '
                   'qidx(min_qp) <= q <= qidx(max_qp) for RC modes, q == qidx(qp) for fixed QP without scaling; distinct = distinct cases')
-    ck.ev.components = core.COMPONENTS_ENC; ck.ev.assumptions = list(ENC_ASSUME) + ['2-pass is sampled in thorough only']
+    ck.ev.components = core.COMPONENTS_ENC; ck.ev.assumptions = list(ENC_ASSUME)
     core.build('plain'); rng = ck.rng; cases = []
     def add(cfgo, kind, n):
         cfgo = dict(cfgo); cfgo.setdefault('logical_processors', rng.choice([1, 2]))
         cases.append(mk(ck, cfgo, {'kind': kind, 'seed': rng.randint(1, 999), 'val': rng.choice([16, 128, 235])}, n, (64, 64), oracles={'decode': 0, 'parse': 1, 'qbounds': 1, 'order': 0}, sim=gen.schedule(rng, allow_buggify=False)))
-    for qp in ([0, 1, 20, 43, 62, 63] if tier == 'quick' else range(0, 64, 3)):
+    for qp in ([0, 1, 2, 11, 20, 31, 43, 52, 62, 63] if tier == 'quick' else range(0, 64, 3)):
         offs = rng.choice([[0] * 6, [0, 4, 8, 12, 16, 20], [-8, -4, 0, 4, 8, 12], [40, 40, 40, 40, 40, 40], [-60, 0, 60, 0, -60, 0]])
         add({'qp': qp, 'use_fixed_qindex_offsets': 1, 'qindex_offsets': offs, 'key_frame_qindex_offset': rng.choice([0, -12, 20]), 'rate_control_mode': 0, 'hierarchical_levels': rng.choice([3, 4])}, rng.choice(['mix', 'noise', 'rails']), rng.randint(3, 10))
-    for (mn, mx) in ([(1, 63), (20, 20), (10, 30), (40, 63), (0, 5)] if tier == 'quick' else [(rng.randint(0, 40), 0) for _ in range(40)]):
+    for (mn, mx) in ([(1, 63), (20, 20), (10, 30), (40, 63), (0, 5), (30, 31), (5, 50), (60, 63), (0, 0), (33, 47)] if tier == 'quick' else [(rng.randint(0, 40), 0) for _ in range(40)]):
         if mx == 0: mx = rng.randint(mn, 63)
         for rc in (1, 2):
             add({'rate_control_mode': rc, 'min_qp_allowed': mn, 'max_qp_allowed': mx, 'target_bit_rate': rng.choice([20000, 200000, 5000000]), 'look_ahead_distance': rng.choice([0, 17]), 'enc_mode': 8}, rng.choice(['rails', 'noise', 'flat', 'moving']), rng.randint(8, 26))
-    for qp in ([10, 50] if tier == 'quick' else [5, 20, 35, 50, 63]):
+    for qp in ([10, 30, 50, 63] if tier == 'quick' else [5, 20, 35, 50, 63]):
         add({'qp': qp, 'enable_qp_scaling_flag': 1, 'rate_control_mode': 0, 'max_qp_allowed': rng.choice([63, 63, 50])}, rng.choice(['mix', 'rails']), rng.randint(5, 12))
+    for (mn, mx, tbr) in ([(10, 50, 200000), (30, 30, 50000), (1, 20, 20000), (45, 63, 3000000)] if tier == 'quick' else [(rng.randint(0, 40), 0, rng.choice([20000, 200000, 3000000])) for _ in range(16)]):
+        if mx == 0: mx = rng.randint(mn, 63)
+        add({'_twopass': 1, 'rate_control_mode': 1, 'min_qp_allowed': mn, 'max_qp_allowed': mx, 'target_bit_rate': tbr, 'intra_period_length': 15, 'recon_enabled': 0}, rng.choice(['rails', 'moving', 'noise']), rng.randint(12, 24)); ck.ev.probe('two_pass_vbr')
     rs = run_batch(ck, cases, 'plain', 'C18', ('TERM', 'CRASH'))   # a run that crashes or hangs cannot have honoured the configured quantizer
     for c, r in zip(cases, rs):
         ck.ev.probe('rc_mode_%d' % c['cfg'].get('rate_control_mode', 0))
@@ -460,10 +478,11 @@ def check_c19(tier, seed):
     for P in periods:
         for irt in (1, 2):
             hl = rng.choice([2, 3, 4]) if tier == 'quick' else rng.choice([0, 1, 2, 3, 4, 5])
-            n = max(3, min(40, (P + 1) * rng.randint(2, 3) + rng.randint(0, 2))) if P >= 0 else rng.randint(5, 20)
-            cfgo = {'intra_period_length': P, 'intra_refresh_type': irt, 'hierarchical_levels': hl, 'scene_change_detection': 0, 'logical_processors': rng.choice([1, 2]), 'enc_mode': 8}
-            if rng.random() < 0.15: cfgo['enable_overlays'] = 1; cfgo['enc_mode'] = 6
-            cases.append(mk(ck, cfgo, gen.content(rng, kinds=['mix', 'moving'], n=n), n, (64, 64), oracles={'decode': 1, 'parse': 1, 'recon_compare': 0, 'intra_place': 1, 'suffix': 1, 'order': 0}, sim=gen.schedule(rng, allow_buggify=False)))
+            for hl in ([hl, rng.choice([0, 1, 2, 3, 4])] if tier == 'quick' else [hl]):
+                n = max(3, min(40, (P + 1) * rng.randint(2, 3) + rng.randint(0, 2))) if P >= 0 else rng.randint(5, 20)
+                cfgo = {'intra_period_length': P, 'intra_refresh_type': irt, 'hierarchical_levels': hl, 'scene_change_detection': 0, 'logical_processors': rng.choice([1, 2]), 'enc_mode': 8}
+                if rng.random() < 0.15: cfgo['enable_overlays'] = 1; cfgo['enc_mode'] = 6
+                cases.append(mk(ck, cfgo, gen.content(rng, kinds=['mix', 'moving'], n=n), n, (64, 64), oracles={'decode': 1, 'parse': 1, 'recon_compare': 0, 'intra_place': 1, 'suffix': 1, 'order': 0}, sim=gen.schedule(rng, allow_buggify=False)))
     rs = run_batch(ck, cases, 'plain', 'C19', ('TERM', 'CRASH'))   # a crash or hang for some (period, refresh type) places no intra frames at all
     for r in rs:
         if r.get('suffix_checked'): ck.ev.probe('random_access_points_checked', r['suffix_checked'])
@@ -482,7 +501,7 @@ def check_c26(tier, seed):
          ({'stat_report': 1, 'recon_enabled': 0, 'cdef_level': 0, 'hierarchical_levels': 4}, {'kind': 'noise', 'seed': 8}, 17, (64, 64)), ({'stat_report': 1, 'recon_enabled': 0, 'enable_restoration_filtering': 1, 'enc_mode': 5}, {'kind': 'hgrad', 'seed': 9}, 6, (128, 128)),
          ({'stat_report': 1, 'recon_enabled': 0, 'tile_columns': 1, 'tile_rows': 1, 'logical_processors': 4}, {'kind': 'moving', 'seed': 10}, 6, (256, 128)), ({'stat_report': 1, 'recon_enabled': 0, 'pred_structure': 1}, {'kind': 'moving', 'seed': 11}, 8, (66, 70)),
          ({'stat_report': 1, 'disable_dlf_flag': 1, 'recon_enabled': 0}, {'kind': 'mix', 'seed': 12}, 8, (64, 64))],
-        40, 200, 'stat_report=1, 8-bit, sizes incl. non-multiples of 8, temporal filtering on/off, all hierarchical levels, recon output on and off, in-loop filters on/off, tiles; film grain and superres off (the code measures before those stages); oracle: for every packet luma/cb/cr SSE == sum (submitted - dav1d-decoded)^2 over the visible area mod 2^32; distinct = distinct cases',
+        100, 200, 'stat_report=1, 8-bit, sizes incl. non-multiples of 8, temporal filtering on/off, all hierarchical levels, recon output on and off, in-loop filters on/off, tiles; film grain and superres off (the code measures before those stages); oracle: for every packet luma/cb/cr SSE == sum (submitted - dav1d-decoded)^2 over the visible area mod 2^32; distinct = distinct cases',
         force={'stat_report': 1, 'film_grain_denoise_strength': 0, 'superres_mode': 0, 'encoder_bit_depth': 8}, fields_quick=['enc_mode', 'hierarchical_levels', 'tf_level', 'qp', 'logical_processors', 'enable_overlays', 'pred_structure', 'intra_period_length', 'cdef_level', 'enable_restoration_filtering', 'disable_dlf_flag', 'tile_columns', 'tile_rows'], kinds=['mix', 'moving', 'noise', 'hgrad'], vary=vary)
 
 TOOL_SWITCHES = [('disable_dlf_flag', 1, 0, 'noise'), ('cdef_level', 0, 1, 'noise'), ('enable_restoration_filtering', 0, 1, 'noise'), ('palette_level', 0, 6, 'text'), ('intrabc_mode', 0, 1, 'text'),
@@ -496,7 +515,7 @@ def check_c20(tier, seed):
                   'tiles: parsed tile log2 values == requested values clipped to the spec limits of the frame size; distinct = distinct cases')
     ck.ev.components = core.COMPONENTS_ENC; ck.ev.assumptions = list(ENC_ASSUME)
     core.build('plain'); rng = ck.rng; cases = []
-    presets = [8, 6] if tier == 'quick' else [8, 7, 6, 5, 4, 3]
+    presets = [8, 6, 4] if tier == 'quick' else [8, 7, 6, 5, 4, 3]
     for (field, off, on, kind) in TOOL_SWITCHES:
         for pr in presets:
             for val in (off, on):
@@ -517,7 +536,7 @@ def check_c20(tier, seed):
             cases.append(mk(ck, cfgo, {'kind': 'text_cfl', 'seed': rng.randint(1, 999)}, 3, (256, 192) if pr <= 6 else (128, 128), oracles={'decode': 0, 'parse': 1, 'tools': 1, 'tool_usage': 1, 'order': 0}))
     tiles = [(tc, tr, wh) for tc in range(0, 5) for tr in range(0, 7) for wh in [(64, 64), (256, 128), (512, 256)]]
     rng.shuffle(tiles)
-    for (tc, tr, wh) in tiles[:14 if tier == 'quick' else 105]:
+    for (tc, tr, wh) in tiles[:30 if tier == 'quick' else 105]:
         cases.append(mk(ck, {'tile_columns': tc, 'tile_rows': tr, 'enc_mode': 8, 'logical_processors': 2}, {'kind': 'mix', 'seed': rng.randint(1, 999)}, 2, wh, oracles={'decode': 0, 'parse': 1, 'tools': 1, 'order': 0}))
     rs = run_batch(ck, cases, 'plain', 'C20', ('TERM', 'CRASH'))
     for c, r in zip(cases, rs):
